@@ -93,6 +93,27 @@ if prop == 'C10':
         if pre: m.value
         d['right'][key] = m; got = res(d['right'][key])
         if got != 'RESERR': viol.append({'doc': d.rebuild(), 'key': ['right', key], 'resolved_before_move': pre, 'what': 'a reference moved into a plain sibling set resolves to %s (taken from the rec set it came from); nothing binds the name there' % got})
+# ---- twelfth round: a composite value reached THROUGH a reference keeps the scoping of the place it is written in; the names inside it are looked up
+# there, never in the scopes of the reference that led to it (expected values by Nix's lexical rule, written out by hand)
+if prop == 'C10':
+    THROUGH = [('let v = 1; s = { k = v; }; in let v = 2; in { x = s; y = v; }', ['x', 'k'], '1'), ('let v = 1; s = { k = v; }; in let v = 2; in { x = s; y = v; }', ['y'], '2'),
+               ('let v = 1; s = rec { k = v; j = k; }; t = s; in let v = 2; in { x = t; }', ['x', 'j'], '1'), ('let v = 1; s = rec { k = v; j = k; }; t = s; in let v = 2; in { x = t; }', ['x', 'k'], '1'),
+               ('let v = 1; s = { k = v; }; in { x = s; }', ['x', 'k'], '1'), ('let s = { k = v; }; v = 1; in let v = 2; in { x = s; }', ['x', 'k'], '1'),
+               ('let v = 1; in let s = { k = { m = v; }; }; in let v = 2; in { x = s; }', ['x', 'k', 'm'], '1'), ('let v = 1; s = { k = v; }; in let v = 2; t = s; in let v = 3; in { x = t; }', ['x', 'k'], '1'),
+               ('let v = 1; s = { k = v; }; in let v = 2; in rec { x = s; v = 4; }', ['x', 'k'], '1')]
+    for src_, keys, want in THROUGH:
+        for warm in (False, True):
+            count('lookup-through-reference')
+            try:
+                node = parse(src_ + '\n')
+                if warm: parse(src_ + '\n')[keys[0]].value          # the same lookups on another object first: nothing may be remembered
+                for i_, k_ in enumerate(keys):
+                    node = node[k_]
+                    while isinstance(node, Identifier): node = node.value
+                got = node.rebuild().strip()
+            except ResolutionError: got = 'RESERR'
+            except Exception as ex: got = 'EXC:' + type(ex).__name__
+            if got != want: viol.append({'doc': src_, 'path': keys, 'what': 'a name inside a set reached through a reference: Nix gives %s, resolution gives %s' % (want, got)})
 # ---- editing through references into inherit clauses and with environments (coverage probe: these branches were never executed):
 # `set x V` rewrites the binding at the end of the chain — the attribute of the inherited source, the with environment that
 # supplies the name (the innermost one), the let binding an alias chain ends in — and nothing else
@@ -110,12 +131,19 @@ if prop == 'C11':
                  'let a = V; b = a; cfg = { x = b; }; in let a = 2; b = 3; in let c2 = cfg; in c2', 'let a = V; in let cfg = { x = a; }; in let a = 2; in cfg']
     # listed (F-46): a call/assert wrapper between the let and the set under a lambda head, or with an inherited name — overwritten instead of redirected
     for tpl in TEMPLATES:
-        for old, new in [('5', '9'), ('"o"', '"n"'), ('[ 1 ]', '{ k = 1; }')]:
+        # twelfth round: old and new values that Python's == equates and Nix does not (1 / true, 0 / false, 1 / 1.0): a `skip when unchanged` shortcut drops the edit
+        for old, new in [('5', '9'), ('"o"', '"n"'), ('[ 1 ]', '{ k = 1; }'), ('1', 'true'), ('0', 'false'), ('true', '1'), ('1', '1.0'), ('false', '0')]:
             src = tpl.replace('V', old); want = tpl.replace('V', new); count('reference-templates')
             try: got = ' '.join(set_value(parse(src + '\n'), 'x', new).split())
             except Exception as ex: got = 'EXC:' + type(ex).__name__
             if got != want: viol.append({'doc': src, 'path': ['x'], 'what': 'set through a reference (inherit / with / alias chain) rewrote the wrong binding', 'got': got, 'expected': want})
             # the same edit through the mapping API: document-level item access, then assignment through the identifier
+            if old in ('1', '0') and new in ('true', 'false') and 'mk ' not in tpl and 'assert c;' not in tpl:
+                count('reference-templates/api')
+                try:
+                    d_ = parse(src + '\n'); d_['x'].value = (new == 'true'); got2 = ' '.join(d_.rebuild().split())
+                except Exception as ex: got2 = 'EXC:' + type(ex).__name__
+                if got2 != want: viol.append({'doc': src, 'path': ['x'], 'what': 'assignment of a boolean through the identifier fetched with doc[key] did not rewrite the defining binding', 'got': got2, 'expected': want})
             if old == '5' and 'mk ' not in tpl and 'assert c;' not in tpl:        # behind a call / assert wrapper item access cannot see the let (explicit ResolutionError; the wrapper gap of F-27 / F-46)
                 count('reference-templates/api')
                 try:
